@@ -1161,7 +1161,7 @@ def run(chk: core.Check):
     ]
     chk.rule = (
         "A: operation shapes from one PRNG (VERIF_SEED): 0-3 parameters per location over a table of schemas (plain string / {} / integer / boolean / enum / bounded, and without a top-level type: enum-only, minimum-only, anyOf-only), OpenAPI 3.0 (75%) or Swagger 2.0, "
-        "required flags, explicit argument none/{}/partial/full/foreign name per location, body none or 1-2 media types (one possibly without serializer) over "
+        "required flags, explicit argument none/{}/partial/full/foreign name/exactly the accept-anything parameters per location (explicit values valid for the declared schema; 15% of path/query locations pair a {} or annotations-only parameter with a typed one), merged explicit+generated parts validated against the declared location schema, body none or 1-2 media types (one possibly without serializer) over "
         "negatable and non-negatable schemas (40% without a top-level type: properties/required, items, enum, anyOf, allOf only; nullable), optional or required, explicit or not; every labelled part validated against the schema as declared in the document (harness own conversion); mode Neg with modes [Neg] or [Pos,Neg], mode Pos; non-trivial = an observation "
         "(case/skip/reject/raise with the drawn values) whose labels are not uniform.  B: schemas of the fragment (random key subsets and orders, type lists, "
         "empty required, empty-string and non-ASCII property names, chained not-inputs) x location x scripted choices; non-trivial = the mutation succeeds.  "
